@@ -8,6 +8,34 @@ TB = ("Trusted base: Go front end + go/types, golang.org/x/tools v0.29.0 (go/pac
       "jsight-schema-core@v0.2.0 behaving as read; reference tables under tools/reference. ")
 
 CHECKS = {
+ "C07": dict(
+   engine="rules/c07.go",
+   category="other",
+   text="(file, index) of every error come from one source object at every constructor call; Line/Column/Quote/trace lines only through NewLocation; JApiError/Location built only in package jerr; post-scan errors only through Directive.makeError with the captured trace; scan-time errors get the live stack, innermost first, once; the include-tracer memo builds its value from the live stack only and its key must determine the value (today it does not: recorded finding F16, repair blocked by a pinned test). Whether the index is the right one per message, and index < len(file), are not claimed.",
+   design="DESIGN.md §5 C07",
+   note=TB + "EOF errors carry index == len(file) and the pinned negative tests assert it: no rule is armed on that.",
+   technique="provenance lint of constructor arguments; who-may-construct; memo key/value dependence analysis"),
+ "C09": dict(
+   engine="rules/c09.go (+ c14.go validate-first)",
+   category="other",
+   text="The file switch at INCLUDE and at the end of an included file neither writes nor inspects parser state (store lint over the functions reachable from processInclude / isScanningFinished), open-context and JSIGHT tests are scoped by the include stack, scanning state is isolated per Scanner, directives of two inclusions are distinct instances, and every memo is keyed by what its value depends on. Catalog equality of split and unsplit documents is behavioural and not claimed.",
+   design="DESIGN.md §5 C09",
+   note=TB,
+   technique="write-effect lint at the file switch; scope conditions by dominance; memo key/value dependence analysis"),
+ "C15": dict(
+   engine="rules/c09.go (C15 part)",
+   category="other",
+   text="Phase-order necessary condition for order independence: along the straight-line build pipeline, for each cross-block name space the phases that insert names precede the phases that resolve them; rules are attached only to fresh schemas; memo sets are insert-only and memo keys cover their values; keyword pre-filters that end a Description cover every keyword. The tag name space violates it today (recorded finding F20). Equality under permutation is behavioural and not claimed.",
+   design="DESIGN.md §5 C15",
+   note=TB,
+   technique="insert/resolve effect sets per pipeline phase compared along the phase order"),
+ "C17": dict(
+   engine="rules/c17.go (+ c01.go recover discipline)",
+   category="other",
+   text="'Never panics' for the module and everything the export calls: both accessors are a single call of a helper whose deferred recover assigns named results and which contains conversion and encoding; every panic/assertion site below it is listed as covered; no other entry into the converter. Plus: method exhaustiveness of assignOperation, Required=true before a path parameter is appended, response keys are codes or \"default\", post-expansion phases read the expanded directive list. Structural validity of the produced document is produced by the dependency from data and is not claimed.",
+   design="DESIGN.md §5 C17",
+   note=TB,
+   technique="recover-boundary coverage over the call graph; exhaustiveness and ordering rules on typed syntax"),
  "C04": dict(
    engine="rules/c04.go (+ c03.go dropped-error rule, c16.go dependency-call rule)",
    category="other",
